@@ -176,9 +176,7 @@ W = "toml_write::string::write_toml_value + TomlStringBuilder (unmodified source
 H("h_encode::c10_encode_basic_u3", ["C10"], W + ", as_basic", U % 3, tier="thorough", measured_s=1060, models=("E2", "M8"), loops=ENC_LOOPS)
 H("h_encode::c10_encode_literal_u3", ["C10"], W + ", as_literal", U % 3, tier="thorough", measured_s=680, models=("E2", "M8"), loops=ENC_LOOPS)
 H("h_encode::c10_encode_ml_literal_u3", ["C10"], W + ", as_ml_literal", U % 3, tier="thorough", measured_s=1370, models=("E2", "M8"), loops=ENC_LOOPS)
-H("h_encode::c10_encode_ml_basic_u2", ["C10"], W + ", as_ml_basic", U % 2, tier="thorough", measured_s=600, models=("E2", "M8"), loops=ENC_LOOPS)
-H("h_encode::c10_encode_default_u2", ["C10"], W + ", as_default", U % 2, tier="thorough", measured_s=600, models=("E2", "M8"), loops=ENC_LOOPS)
-H("h_encode::c10_encode_key_u2", ["C10"], "toml_write::string::write_toml_value + TomlKeyBuilder (unmodified source via E2): bare / literal / basic / default keys", U % 2, tier="thorough", measured_s=600, models=("E2", "M8"), loops=ENC_LOOPS)
+# (as_ml_basic, as_default and the key builder do not finish within 30 min even at <= 2 bytes: not registered)
 
 # ---- C15: line/column translation ---------------------------------------------------------------
 for n, t, m in ((3, "quick", 16), (4, "quick", 23), (5, "quick", 30), (6, "quick", 31), (8, "thorough", 120)):
